@@ -65,6 +65,7 @@ class Ctx:
         self.nonzero_elems = []   # field elements assumed non-zero by the contract's precondition
                                   # (the weight function of a rational curve: "has no zero")
         self.assumed = []
+        self.policy = None       # callable(ctx, SymBool) -> True/False/None: branch fixed by a stated precondition
         self.nodecide = False    # spec mode: comparisons must be decided
         self.max_forks = 64
 
@@ -175,6 +176,17 @@ class Ctx:
             return False
         if self.nodecide:
             raise SpecUndecided(sb.describe())
+        if self.policy is not None:
+            forced = self.policy(self, sb)
+            if forced is not None:       # a stated precondition of the contract decides this branch (no fork)
+                c = z if forced else z3.Not(z)
+                self.solver.add(c)
+                self.pc.append(c)
+                self.pc_desc.append(("assumed: " if forced else "assumed: not ") + sb.describe()[:200])
+                self.pc_id = hash((self.pc_id, sb.key(), forced))
+                self.model = None
+                self.stats["policy_decisions"] = self.stats.get("policy_decisions", 0) + 1
+                return forced
         idx = len(self.path)
         if idx < len(self.prefix):
             val = self.prefix[idx]
